@@ -1,7 +1,7 @@
 (** C17 — instance collapse transforms contents exactly and leaves the template intact.
     Only statements here; proofs are in Rot/C17GeomProofs.v, SM/C17NameProofs.v, SM/C17RoundsProofs.v,
     SM/C17SubstProofs.v, SM/C17SitesProofs.v, SM/C17FrameProofs.v (the last one on top of C09's SM/StoreCopyProofs.v),
-    SM/C17GlobalProofs.v, SM/C17CacheProofs.v, SM/C17ComposeProofs.v.
+    SM/C17GlobalProofs.v, SM/C17CacheProofs.v, SM/C17ComposeProofs.v, SM/C17WholeProofs.v, SM/C17PropertyProofs.v.
     Every [g_...] below is GENERATED from today's math.py / vmf.py / instancing.py (Gen/C17Formulas_gen.v) by
     symbolic execution of the Python method bodies; [place], [vrot], [mmul], [uvplace], [texcoord], [orth] are the
     hand-written specification (Rot/C17Base.v).  Arithmetic is over R: floating-point rounding is outside the model. *)
@@ -10,7 +10,8 @@ From SV Require Import Rot.C17Base SM.C17Name SM.C17Rounds SM.C17Subst SM.C17Sit
                        SM.StoreCopyProofs SM.C17Frame SM.C17Global SM.C17Cache SM.C17Compose
                        Gen.C17Formulas_gen
                        Rot.C17GeomProofs SM.C17NameProofs SM.C17RoundsProofs SM.C17SubstProofs SM.C17SitesProofs
-                       SM.C17FrameProofs SM.C17GlobalProofs SM.C17CacheProofs SM.C17ComposeProofs.
+                       SM.C17FrameProofs SM.C17GlobalProofs SM.C17CacheProofs SM.C17ComposeProofs
+                       SM.C17Whole SM.C17WholeProofs SM.C17PropertyProofs.
 Import ListNotations.
 (* String is imported for the census names; [length] keeps meaning the length of a list *)
 Local Notation length := List.length (only parsing).
@@ -324,6 +325,89 @@ Theorem c17_collapse_order_independent : forall (T G P A M Obs : Type) (obs : T 
   Permutation.Permutation (c_history T G P A M collapse cs t g) (c_history T G P A M collapse cs' t g).
 Proof. exact order_independent. Qed.
 
+(** *** THE PROPERTY AS ONE STATEMENT over the generated objects (round 4).  The four hypotheses of the two theorems above
+    are no longer assumed but derived, in one machine (SM/C17Whole.v): a collapse is the run of the generated skeleton of
+    collapse_one over a program state made of C09's heap (who holds a reference to what), the values in hand and the
+    process-global state; what it adds to the map is the generated placement arithmetic [g_arith] applied item by item.
+      - template read only through its value + template intact:  from C09's census / frame theorems, for every copy
+        census in which the classes reached by copy() from the copied classes are fresh (obligation
+        `copied_template_classes_fresh`, with [all] := C09's generated [all_census]);
+      - independent of the process state:  from [fn_ok] of the skeleton (obligation `process_state_only_gates_logging`;
+        collapse_one is in the list: `collapse_one_skeleton_present`);
+      - placement equivariance:  from the identity laws of the generated arithmetic (c17_generated_arithmetic_identity).
+    What remains assumed is [respects], about the meaning of the individual statements (universally quantified [m]):
+    a statement writes through references it holds or builds a copy as the census says, and what it computes depends on
+    the template only through the template's value.
+    Conclusion: every result (how control left collapse_one, what was added to the map) of ANY history of collapses of
+    one template in one process equals what that call alone gives on the untouched template, in a new process (any
+    process state [g0]), at the identity placement, moved to its own placement. *)
+Theorem c17_property : forall (all : list (string * census)),
+  copied_classes_fresh all g_collapse_copied_classes = true ->
+  process_state_only_gates_logging = true ->
+  forall name body, In (name, body) g_process_state_functions ->
+  forall (X G A D : Type) (a : loc) (m : sem (pstate X) G), respects all g_collapse_copied_classes X G a m ->
+  forall (enter : A -> X) (content : X -> list (item D)) cs t g g0, wf_T a t ->
+    c_history T G placement A (added D) (collapse X G m A D g_arith body enter content) cs t g =
+    map (as_if_first T G placement A (added D) (collapse X G m A D g_arith body enter content)
+           ident_placement (transform D g_arith) t g0) cs.
+Proof. exact (fun all => property_each_collapse_as_if_first all g_collapse_copied_classes g_process_state_functions). Qed.
+
+(** ... hence "in any order": a permuted history gives the permuted results ... *)
+Theorem c17_property_any_order : forall (all : list (string * census)),
+  copied_classes_fresh all g_collapse_copied_classes = true ->
+  process_state_only_gates_logging = true ->
+  forall name body, In (name, body) g_process_state_functions ->
+  forall (X G A D : Type) (a : loc) (m : sem (pstate X) G), respects all g_collapse_copied_classes X G a m ->
+  forall (enter : A -> X) (content : X -> list (item D)) cs cs' t g, wf_T a t -> Permutation.Permutation cs cs' ->
+    Permutation.Permutation (c_history T G placement A (added D) (collapse X G m A D g_arith body enter content) cs t g)
+                            (c_history T G placement A (added D) (collapse X G m A D g_arith body enter content) cs' t g).
+Proof. exact (fun all => property_order_independent all g_collapse_copied_classes g_process_state_functions). Qed.
+
+(** ... and after the whole history every observation of the template is what it was, the process still holds it
+    separated from all copies (the state from which the next collapse starts). *)
+Theorem c17_property_template_intact : forall (all : list (string * census)),
+  copied_classes_fresh all g_collapse_copied_classes = true ->
+  forall (body : skel) (X G A D : Type) (a : loc) (m : sem (pstate X) G), respects all g_collapse_copied_classes X G a m ->
+  forall (enter : A -> X) (content : X -> list (item D)) cs t g, wf_T a t ->
+    let t' := final_T X G m A D g_arith body enter content cs t g in
+    wf_T a t' /\ forall n, unfold n (fst t') (VRef a) = unfold n (fst t) (VRef a).
+Proof. exact (fun all => property_template_intact all g_collapse_copied_classes). Qed.
+
+(** The generated arithmetic: placing at (0, I) changes no point, direction, texture axis or orientation, and the other
+    generated placement functions (entity origin, position keyvalues, explicit vertices, displacement data) are the
+    same arithmetic as the four of [g_arith]. *)
+Theorem c17_generated_arithmetic_identity : arith_identity g_arith.
+Proof. exact g_arith_identity. Qed.
+
+Theorem c17_generated_arithmetic_covers_sites : forall p o m,
+  g_collapse_ent_origin p o m = ar_point g_arith p o m /\ g_fixup_key_position p o m = ar_point g_arith p o m /\
+  g_side_strata_point p o m = ar_point g_arith p o m /\ g_side_disp_pos p o m = ar_point g_arith p o m /\
+  g_side_vert_normal p m = ar_dir g_arith p m /\ g_side_vert_offset p m = ar_dir g_arith p m /\
+  g_side_vert_offset_norm p m = ar_dir g_arith p m.
+Proof. exact g_arith_covers_sites. Qed.
+
+(** ... and the [transform D g_arith] of c17_property is, item by item, the specification of the property text: a position
+    is the original rotated by the instance matrix and then offset by its origin ([place]), a direction is rotated ([vrot]),
+    a texture axis is placed so that the texture moves with the geometry ([uvplace], c17_texture_moves_with_geometry), an
+    orientation is composed with the instance rotation ([mmul]); placement-independent data is untouched. *)
+Theorem c17_property_transform_is_the_specification : forall D p (r : added D),
+  transform D g_arith p r = transform D spec_arith p r.
+Proof. exact transform_g_is_spec. Qed.
+
+(** The derivations behind c17_property, for any arithmetic / census / skeleton: a statement that respects the census
+    keeps the template's value and the separation (C09's census theorem + frame theorem, one statement at a time) ... *)
+Theorem c17_disciplined_statement_keeps_template : forall all copied, copied_classes_fresh all copied = true ->
+  forall a h R h' R', disciplined all copied h R h' R' -> wf_hr a h R ->
+  (forall n, unfold n h' (VRef a) = unfold n h (VRef a)) /\ wf_hr a h' R'.
+Proof. exact disciplined_frame. Qed.
+
+(** ... and two runs of any skeleton from states that hold the same values and see the same template value stay in
+    step: same values, same control outcome, same process state, template value kept on both sides. *)
+Theorem c17_run_reads_template_by_value : forall all copied, copied_classes_fresh all copied = true ->
+  forall (X G : Type) (a : loc) (m : sem (pstate X) G), respects all copied X G a m ->
+  forall o p s s' g, sim X a o s s' -> sim_out X G a o (run (pstate X) G m p s g) (run (pstate X) G m p s' g).
+Proof. exact run_sim. Qed.
+
 (** *** `substitute` is a function of the current table, although the compiled pattern is cached on the object.
     For every list of method shapes passing [shape_ok] (the generated one does: obligation
     `fixup_pattern_cache_reset_on_key_change`), every history of method calls and substitutions on a new table, every
@@ -377,3 +461,43 @@ Proof. exact work_linear_fanout1. Qed.
 Theorem c17_collapse_work_exponential_refuted : forall limit,
   loop (fun _ => [0; 0]) limit [0] = (Raise, limit, 2 ^ limit - 1).
 Proof. exact self_twice. Qed.
+
+(* ===================================================================================================================
+   BEGIN round 4 - cycle repair (collapse_all with the ancestry check, SM/C17Rounds.v [loop2]).
+   [loop] above is the loop WITHOUT the check (the code before the repair): it stays as the specification of the outcome.
+   [loop2 children perm] is today's loop: a pending instance carries the files of its enclosing instances and the loop
+   raises as soon as an instance's file is among them; [perm] is the (arbitrary) order in which the set by_class hands
+   out the pending instances of a round.  The graph [children] is fixed, i.e. all nested file names are free of
+   $variables; links through $variables reset the parents in the code and are outside the model.
+   ([start] is qualified: SM/C17Whole.v, imported later, has a [start] of its own.)
+   =================================================================================================================== *)
+
+(** Exactness of the repair, for every graph, limit, start and iteration order: the loop with the check raises exactly
+    when the loop without it raises, and when they finish they ran the same rounds and the same collapse_one calls. *)
+Theorem c17_collapse_cycle_check_exact : forall children perm, (forall l, Permutation.Permutation (perm l) l) ->
+  forall limit roots,
+  l_outcome (loop2 children perm limit (C17Rounds.start roots)) = l_outcome (loop children limit roots) /\
+  (l_outcome (loop children limit roots) = Done -> loop2 children perm limit (C17Rounds.start roots) = loop children limit roots).
+Proof. exact cycle_check_exact. Qed.
+
+(** It never does more work or more rounds than the loop without the check. *)
+Theorem c17_collapse_cycle_check_work_le : forall children perm, (forall l, Permutation.Permutation (perm l) l) ->
+  forall limit roots,
+  l_work (loop2 children perm limit (C17Rounds.start roots)) <= l_work (loop children limit roots) /\
+  l_rounds (loop2 children perm limit (C17Rounds.start roots)) <= l_rounds (loop children limit roots).
+Proof. exact cycle_check_work_le. Qed.
+
+(** The file that includes itself twice (2^limit - 1 collapses without the check, c17_collapse_work_exponential_refuted):
+    one collapse, RecursionError in the second round - for every limit of at least 2 and every iteration order. *)
+Theorem c17_collapse_self_twice_raises_at_once : forall perm, (forall l, Permutation.Permutation (perm l) l) ->
+  forall limit, 2 <= limit -> loop2 (fun _ => [0; 0]) perm limit (C17Rounds.start [0]) = (Raise, 2, 1).
+Proof. exact self_twice_checked_any_order. Qed.
+
+(** The number of rounds no longer grows with the limit: with all files among [univ] (closed under inclusion) at most
+    one round per file and one more (a chain of parents never repeats a file). *)
+Theorem c17_collapse_cycle_check_rounds_le_files : forall children perm, (forall l, Permutation.Permutation (perm l) l) ->
+  forall univ, (forall f, In f univ -> incl (children f) univ) ->
+  forall limit roots, incl roots univ ->
+  l_rounds (loop2 children perm limit (C17Rounds.start roots)) <= S (length univ).
+Proof. exact cycle_check_rounds_le_files. Qed.
+(* END round 4 - cycle repair ====================================================================================== *)
